@@ -150,20 +150,22 @@ def main():
         nwrong = nill = 0
         for t, g, x in zip(texts, guard, gxx):
             right = x == "some:" + t.encode("utf-8").hex()
-            if right != (g == "true"):
+            # since fix 58823a1 the generator uses the dedicated escaper: EVERY text must come back
+            # (`guard` = okText, the domain of the former repr()-based expression, is only reported)
+            if not right:
                 bad += 1
                 if bad < 5:
-                    print("   guard mismatch on %r: okText=%s, g++=%s" % (t, g, x))
+                    print("   literal does not decode to the text %r: okText=%s, g++=%s" % (t, g, x))
             if not right:
                 if x == "none":
                     nill += 1
                 else:
                     nwrong += 1
         print("%s  %-34s %6d texts: %d right, %d ill-formed literal, %d wrong bytes"
-              % ("IDENTICAL" if bad == 0 else "DIFFERENT", "g++ round trip ⇔ okText guard",
+              % ("IDENTICAL" if bad == 0 else "DIFFERENT", "g++ round trip (every text)",
                  len(texts), len(texts) - nill - nwrong, nill, nwrong))
         ok &= bad == 0
-        # 8. the PROPOSED fix (not in the repository): Python text of NOTES.md vs the Lean
+        # 8. the escaper (in the repository since fix 58823a1): an independent Python copy vs the Lean
         #    `cppEscape` (proved right for every text) vs g++
         with open(p("req_fix.tsv"), "w", encoding="utf-8") as f:
             for t in texts:
@@ -178,7 +180,7 @@ def main():
         gfix = open(p("gxx_fix.txt")).read().split("\n")[:len(texts)]
         nbad = sum(1 for t, g in zip(texts, gfix) if g != "some:" + t.encode("utf-8").hex())
         print("%s  %-34s %6d texts: Python fix %s Lean cppEscape; g++ decodes %d wrongly"
-              % ("IDENTICAL" if mfix == pfix and nbad == 0 else "DIFFERENT", "proposed escaper (informational)",
+              % ("IDENTICAL" if mfix == pfix and nbad == 0 else "DIFFERENT", "escaper: Python copy vs Lean vs g++",
                  len(texts), "==" if mfix == pfix else "!=", nbad))
         ok &= mfix == pfix and nbad == 0
         # 9. whole generated files, with vs without XML
